@@ -8,17 +8,28 @@
     Reader, record level (family gds_read; reading Gds/KernelsInstGdsRead.v with MONADIC SELF, the bytes not yet read being the state
     of the effect; proofs Gds/KernelsTieGdsRead_proofs.v): `read_record_header`, `read_record_content` (all 49 arms: which typed
     read, which length, which elements of the vector go to which field of the variant) and `read_record` are [read_header],
-    [read_content], [read_record] of Gds/GdsRead.v, the `GdsError` variant apart; byte-level IO is external. *)
+    [read_content], [read_record] of Gds/GdsRead.v, the `GdsError` variant apart; byte-level IO is external.
+    Parser (families gds_parse, gds_parse_e1, gds_parse_e2, gds_parse_lib; reading Gds/KernelsInstGdsParse.v: monadic self = look-ahead record
+    + unread bytes, `next` through the generated `read_record`, loops on fuel): [P0.sim f x y] = the generated run x and the model's run y
+    end in the same class, with the same value and state, and the state stays well-formed; `parse_property`, `parse_strans`, the seven
+    element parsers, `parse_struct`, `parse_lib` are the model's functions WHOLE and fuel for fuel; with the first record read by the
+    generated `read_record`, `parse_lib` is [read_lib_fuel]. *)
 From Coq Require Import ZArith Bool List.
 From L21 Require Import Base.KernelOps Base.KernelOpsX Base.Outcome.
 From L21 Require Import Gds.GdsData Gds.GdsRecord Gds.GdsWrite Gds.KernelsInstGdsWrite.
 From L21 Require Gds.KernelsTieGdsWrite_proofs.
 From L21 Require Gds.GdsRead Gds.KernelsInstGdsRead Gds.KernelsTieGdsRead_proofs.
+From L21 Require Gds.KernelsInstGdsParse Gds.KernelsTieGdsParse_proofs Gds.KernelsTieGdsParseE1_proofs Gds.KernelsTieGdsParseE2_proofs Gds.KernelsTieGdsParseL_proofs.
 Import ListNotations.
 Local Open Scope Z_scope.
 Module W := Gds.KernelsTieGdsWrite_proofs.
 Module RI := Gds.KernelsInstGdsRead.
 Module R := Gds.KernelsTieGdsRead_proofs.
+Module PI := Gds.KernelsInstGdsParse.
+Module P0 := Gds.KernelsTieGdsParse_proofs.
+Module P1 := Gds.KernelsTieGdsParseE1_proofs.
+Module P2 := Gds.KernelsTieGdsParseE2_proofs.
+Module PL := Gds.KernelsTieGdsParseL_proofs.
 
 Section Writer.
 Context {S : Type} (emit : S -> record -> gres S).
@@ -68,6 +79,35 @@ Theorem Ktie_read_record : forall bs, forallb u8b (firstn 2 bs) = true ->
   RI.as_rec (RI.g_read_record bs) = RI.ounit (GdsRead.read_record true bs).
 Proof. exact R.tie_read_record. Qed.
 
+(** * the parser *)
+Import PI.
+Theorem Ktie_parse_property : forall s attr, u8s s -> P0.sim Mprop (g_parse_property attr s) (GdsRead.parse_property true (Rst s) attr).
+Proof. exact P0.tie_parse_property. Qed.
+Theorem Ktie_parse_strans : forall f s d0 d1, u8s s -> P0.sim Mstrans (g_parse_strans f d0 d1 s) (GdsRead.parse_strans true f (Rst s) d0 d1).
+Proof. exact P0.tie_parse_strans. Qed.
+Theorem Ktie_parse_boundary : forall f s, u8s s -> P0.sim (fun e => EBoundary (Mboundary e)) (g_parse_boundary f s) (GdsRead.parse_elem true f GdsRead.KBoundary (Rst s) [] []).
+Proof. exact P1.tie_parse_boundary. Qed.
+Theorem Ktie_parse_path : forall f s, u8s s -> P0.sim (fun e => EPath (Mpath e)) (g_parse_path f s) (GdsRead.parse_elem true f GdsRead.KPath (Rst s) [] []).
+Proof. exact P1.tie_parse_path. Qed.
+Theorem Ktie_parse_node : forall f s, u8s s -> P0.sim (fun e => ENode (Mnode e)) (g_parse_node f s) (GdsRead.parse_elem true f GdsRead.KNode (Rst s) [] []).
+Proof. exact P1.tie_parse_node. Qed.
+Theorem Ktie_parse_box : forall f s, u8s s -> P0.sim (fun e => EBox (Mbox e)) (g_parse_box f s) (GdsRead.parse_elem true f GdsRead.KBox (Rst s) [] []).
+Proof. exact P1.tie_parse_box. Qed.
+Theorem Ktie_parse_struct_ref : forall f s, u8s s -> P0.sim (fun e => ESref (Msref e)) (g_parse_struct_ref f s) (GdsRead.parse_elem true f GdsRead.KSref (Rst s) [] []).
+Proof. exact P2.tie_parse_struct_ref. Qed.
+Theorem Ktie_parse_array_ref : forall f s, u8s s -> P0.sim (fun e => EAref (Maref e)) (g_parse_array_ref f s) (GdsRead.parse_elem true f GdsRead.KAref (Rst s) [] []).
+Proof. exact P2.tie_parse_array_ref. Qed.
+Theorem Ktie_parse_text_elem : forall f s, u8s s -> P0.sim (fun e => EText (Mtext e)) (g_parse_text_elem f s) (GdsRead.parse_elem true f GdsRead.KText (Rst s) [] []).
+Proof. exact P2.tie_parse_text_elem. Qed.
+(** `dates: &[i16; 12]` *)
+Theorem Ktie_parse_struct : forall f s dates, u8s s -> length dates = 12%nat -> P0.sim Mstruct (g_parse_struct f dates s) (GdsRead.parse_struct true f (Rst s) dates).
+Proof. exact PL.tie_parse_struct. Qed.
+Theorem Ktie_parse_lib : forall f s, u8s s -> omap (fun ls => Mlib (fst ls)) (g_parse_lib f s) = RI.ounit (GdsRead.parse_lib true f (Rst s)).
+Proof. exact PL.tie_parse_lib. Qed.
+(** `GdsLibrary::from_bytes`: generated `read_record`, then generated `parse_lib` = the model's reader *)
+Theorem Ktie_read_lib : forall f bs, forallb u8b bs = true -> omap (fun ls => Mlib (fst ls)) (PL.g_read_lib f bs) = RI.ounit (GdsRead.read_lib_fuel true f bs).
+Proof. exact PL.tie_read_lib. Qed.
+
 Print Assumptions Ktie_encode_strans.
 Print Assumptions Ktie_encode_boundary.
 Print Assumptions Ktie_encode_path.
@@ -86,3 +126,15 @@ Print Assumptions Ktie_valid.
 Print Assumptions Ktie_read_record_header.
 Print Assumptions Ktie_read_record_content.
 Print Assumptions Ktie_read_record.
+Print Assumptions Ktie_parse_property.
+Print Assumptions Ktie_parse_strans.
+Print Assumptions Ktie_parse_boundary.
+Print Assumptions Ktie_parse_path.
+Print Assumptions Ktie_parse_node.
+Print Assumptions Ktie_parse_box.
+Print Assumptions Ktie_parse_struct_ref.
+Print Assumptions Ktie_parse_array_ref.
+Print Assumptions Ktie_parse_text_elem.
+Print Assumptions Ktie_parse_struct.
+Print Assumptions Ktie_parse_lib.
+Print Assumptions Ktie_read_lib.
